@@ -232,6 +232,9 @@ class CallMixin:
                 if init is None:
                     for i, a in enumerate(vs):
                         st3.heap.store("$arg%d" % i, o, a)
+                    if self.eng.ct.is_sub(clsname, "StopIteration"):
+                        st3.heap.store("value", o, vs[0] if vs else NONE)
+                        st3.heap.store("$has:value", o, z3.BoolVal(True))
                     yield st3, o, None
                     continue
                 c = self.get_contract(init)
@@ -369,12 +372,14 @@ class CallMixin:
         lab = "%s@%d" % (short, occ) if occ else short
         ln = getattr(node, "lineno", None)
         env0 = SpecEnv(self.eng, names, st.heap, st.heap, fx=self)
-        for i, r in enumerate(c.requires):
-            self.oblige(st, "call-pre", "%s.%d" % (lab, i + 1), env0.formula(r), ln)
         try:
             ctext = ast.unparse(node.func) if isinstance(node, ast.Call) else None
         except Exception:
             ctext = None
+        for r in self.contract.labels.get("site_assumes", {}).get(ctext, []):
+            st.assume(self.spec_env(st).formula(r))
+        for i, r in enumerate(c.requires):
+            self.oblige(st, "call-pre", "%s.%d" % (lab, i + 1), env0.formula(r), ln)
         for i, r in enumerate(self.contract.labels.get("site_requires", {}).get(ctext, [])):
             self.oblige(st, "site-pre", "%s.%d" % (lab, i + 1), self.spec_env(st).formula(r), ln)
         if c.raw_requires:
@@ -426,8 +431,7 @@ class CallMixin:
             # visible-state discipline: object invariants must hold when unknown code may run
             if self.contract.inv_exit and not self.contract.labels.get("noinv@" + short):
                 inv = self.eng.inv(st.heap)
-                for i, f in enumerate(inv):
-                    self.oblige(st, "inv", "callout:%s.%d" % (lab, i + 1), f, ln)
+                self.oblige_all(st, "inv", "callout:" + lab, [(str(i + 1), f) for i, f in enumerate(inv)], ln)
             st.heap = st.heap.havoc_all()
             for f_ in self.eng.wf(st.heap):
                 st.assume(f_)
@@ -468,8 +472,16 @@ class CallMixin:
                     xs.assume(g)
             if not dead:
                 xs.trace.append("L%s: %s raises" % (ln, short))
+                for r in self.contract.labels.get("site_assumes_after", {}).get(ctext, []):
+                    ea = self.spec_env(xs)
+                    ea.old = old
+                    xs.assume(ea.formula(r))
                 if self.feasible(xs):
                     yield xs, None, exc
+        for r in self.contract.labels.get("site_assumes_after", {}).get(ctext, []):
+            ea = self.spec_env(st)
+            ea.old = old
+            st.assume(ea.formula(r))
         envn = SpecEnv(self.eng, names, st.heap, old, result=res, fx=self)
         for p in c.post:
             st.assume(envn.formula(p))
